@@ -20,7 +20,8 @@
 (* of the property: reorgs stay within the safety limit, callers give      *)
 (* correct height hints, a historical rescan reports the truth about the   *)
 (* active chain in the requested range and arrives before the request      *)
-(* matures (DESIGN 10.7, observation O1).                                  *)
+(* matures (DESIGN 10.7, observation O1) - or, "backend ahead", reports a   *)
+(* block at tip+1 that the notifier has not connected (yet, or ever).      *)
 (* The observation part (out, hd, err) is what a client that empties its   *)
 (* channels after every call sees; told/toldAt is the client's belief.     *)
 (***************************************************************************)
@@ -305,6 +306,34 @@ HistSpend(o) ==
   /\ UNCHANGED <<chain, reorgDepth, csets, byConf, byInit, chint, panic, nextBlk, maxTip, hc>>
   /\ Ghost
 
+(* "Backend ahead": the historical rescan ran on a backend that had already  *)
+(* accepted a block at Tip+1 which the notifier has not connected yet (and    *)
+(* may never connect: the chain can continue with a different block at that   *)
+(* height), and reports the inclusion/spend in that block.  The code must     *)
+(* ignore the details (details.BlockHeight > currentHeight): the rescan is    *)
+(* marked complete, nothing is cached, queued or committed as a hint.         *)
+HistConfAhead(t) ==
+  /\ hc[t] # NoR
+  /\ ConfAt(t) = 0 /\ SpentAt(OutOf(t)) = 0      \* the tx could be in the next block
+  /\ hc' = [hc EXCEPT ![t] = NoR]
+  /\ IF ~csets[t].ex THEN err' = 1 /\ UNCHANGED csets
+     ELSE IF csets[t].h # 0 THEN err' = 0 /\ UNCHANGED csets
+     ELSE err' = 0 /\ csets' = [csets EXCEPT ![t].rs = "done"]
+  /\ out' = Quiet /\ hd' = NoR
+  /\ UNCHANGED <<chain, reorgDepth, ssets, regs, byConf, byInit, spBy, chint, shint, panic, nextBlk, maxTip, hs>>
+  /\ Ghost
+
+HistSpendAhead(o) ==
+  /\ hs[o] # NoR
+  /\ SpentAt(o) = 0
+  /\ hs' = [hs EXCEPT ![o] = NoR]
+  /\ IF ~ssets[o].ex THEN err' = 1 /\ UNCHANGED ssets
+     ELSE IF ssets[o].h # 0 THEN err' = 0 /\ UNCHANGED ssets
+     ELSE err' = 0 /\ ssets' = [ssets EXCEPT ![o].rs = "done"]
+  /\ out' = Quiet /\ hd' = NoR
+  /\ UNCHANGED <<chain, reorgDepth, csets, regs, byConf, byInit, spBy, chint, shint, panic, nextBlk, maxTip, hc>>
+  /\ Ghost
+
 \* the smallest block id that neither the chain nor the notifier nor a client refers to
 UsedIds == {chain[h].id : h \in 1..Len(chain)} \cup {csets[t].b : t \in ConfTargets}
            \cup {toldAt[i].b : i \in RegIds}
@@ -431,6 +460,8 @@ Next ==
   \/ \E i \in RegIds : Cancel(i)
   \/ \E t \in ConfTargets : HistConf(t)
   \/ \E o \in SpendTargets : HistSpend(o)
+  \/ \E t \in ConfTargets : HistConfAhead(t)
+  \/ \E o \in SpendTargets : HistSpendAhead(o)
 
 Spec == Init /\ [][Next]_vars
 
